@@ -215,6 +215,44 @@ def second_pass(ctx):
             s.close()
 
 
+def scripts_as_testcases(ctx):
+    """the testcase is itself a script: an executable file whose first line is an interpreter line.  Every line is an atom like
+    any other (the `#!` line goes when it is not in the core), and a test that RUNS the file (needs the x bit) must keep
+    working on every candidate Lithium writes"""
+    import os
+    from .. import driver, scripts
+    firsts = [b"#!/bin/sh\n", b"#!/usr/bin/env python3\n", b"\xef\xbb\xbf#!x\n", b"#! /bin/sh -e\n"]
+    for first in firsts:
+        for core in ((), (3,), (0, 5), (7,)):
+            parts = [first] + [b"echo %d\n" % i for i in range(1, 8)]
+            data = b"".join(parts)
+            need = [parts[i] for i in core]
+            for needs_x in (False, True):
+                s = driver.Session(None, kind="line", from_file=data)
+                try:
+                    if needs_x:
+                        os.chmod(s.path, 0o755)
+
+                    def dec(k, disk, need=need, needs_x=needs_x, path=s.path):
+                        if needs_x and not os.access(path, os.X_OK):
+                            return "r"      # the test runs the file: without the x bit nothing is interesting
+                        have = set(disk.splitlines(keepends=True))
+                        return "a" if all(p in have for p in need) else "r"
+                    s.test.decider = dec
+                    o = s.run(scripts.make_real_strategy("minimize", {}), "r")
+                    case = dict(kind="line", n=len(parts), core=list(core), m=len(core), on_disk=True, first_line=first.decode("latin1"),
+                                executable=needs_x)
+                    ctx.evaluations += 1
+                    ctx.bump("script-testcases")
+                    if o.disk != b"".join(need):
+                        ctx.fail("not-the-core", f"a script as testcase (first line {first!r}, {'executable, the test runs it' if needs_x else 'plain'}), "
+                                 f"core={list(core)}: the file holds {o.disk!r} after run(), the core is {b''.join(need)!r}", case)
+                    if len(o.calls) > bound(len(parts), len(core)):
+                        ctx.fail("too-many-tests", f"a script as testcase, n={len(parts)} m={len(core)}: {len(o.calls)} tests > bound", case)
+                finally:
+                    s.close()
+
+
 def search(ctx):
     reused_strategy(ctx)
     collision_case(ctx, do_model=False)
@@ -230,6 +268,7 @@ def run(ctx) -> int:
     collision_case(ctx)
     reused_strategy(ctx)
     second_pass(ctx)
+    scripts_as_testcases(ctx)
     on_disk(ctx, 7 if ctx.thorough else 5)
     small(ctx, N0)
     ctx.exhaustive.append(f"every (n, core) with n <= {N0}")
